@@ -100,9 +100,58 @@ def build(name, signers):
     print("wrote", name, len(out.getvalue()))
 
 
+def _apk_with_block(name, block, der, sf_extra=b""):
+    entries = []
+    with zipfile.ZipFile(BASE) as z:
+        for zi in z.infolist():
+            if not zi.filename.startswith("META-INF/"):
+                entries.append((zi.filename, z.read(zi.filename)))
+    out = io.BytesIO()
+    with zipfile.ZipFile(out, "w", zipfile.ZIP_DEFLATED) as z:
+        z.writestr("META-INF/MANIFEST.MF", b"Manifest-Version: 1.0\r\n\r\n")
+        z.writestr("META-INF/%s.SF" % block, SF_FIXED)
+        z.writestr("META-INF/%s.EC" % block, der)
+        for fn, data in entries:
+            z.writestr(fn, data)
+    with open(os.path.join(OUT, name), "wb") as f:
+        f.write(out.getvalue())
+    print("wrote", name)
+
+
+SF_FIXED = b"Signature-Version: 1.0\r\nCreated-By: verif corpus\r\nSHA-256-Digest-Manifest: AAAA\r\n\r\n"
+
+
+def build_forged():
+    """Two certificates with the SAME issuer and serial number but different keys.
+    gen-dup-issuer-serial-valid.apk : block signed by key 2, carrying certificate 2      (verifies)
+    gen-forged-cert-swapped.apk     : the same signature, but the bag carries certificate 1 (must NOT be reported)"""
+    from asn1crypto import cms, x509 as ax509
+    name = x509.Name([x509.NameAttribute(NameOID.COMMON_NAME, "dup-issuer-serial"), x509.NameAttribute(NameOID.ORGANIZATION_NAME, "Verif Corpus")])
+    certs, keys = [], []
+    for _ in range(2):
+        key = ec.generate_private_key(ec.SECP256R1())
+        cert = (x509.CertificateBuilder().subject_name(name).issuer_name(name).public_key(key.public_key())
+                .serial_number(0x1234567890ABCDEF).not_valid_before(datetime.datetime(2020, 1, 1))
+                .not_valid_after(datetime.datetime(2040, 1, 1)).sign(key, hashes.SHA256()))
+        certs.append(cert)
+        keys.append(key)
+    for attrs, tag in ((True, "attrs"), (False, "noattrs")):
+        opts = [pkcs7.PKCS7Options.Binary, pkcs7.PKCS7Options.DetachedSignature,
+                pkcs7.PKCS7Options.NoCapabilities if attrs else pkcs7.PKCS7Options.NoAttributes]
+        der = pkcs7.PKCS7SignatureBuilder().set_data(SF_FIXED).add_signer(certs[1], keys[1], hashes.SHA256()).sign(serialization.Encoding.DER, opts)
+        _apk_with_block("gen-dup-issuer-serial-valid-%s.apk" % tag, "CERT", der)
+        ci = cms.ContentInfo.load(der)
+        ci["content"]["certificates"] = cms.CertificateSet([cms.CertificateChoices(
+            name="certificate", value=ax509.Certificate.load(certs[0].public_bytes(serialization.Encoding.DER)))])
+        _apk_with_block("gen-forged-cert-swapped-%s.apk" % tag, "CERT", ci.dump())
+
+
 if __name__ == "__main__":
     os.makedirs(OUT, exist_ok=True)
     import sys
+    if "--forged" in sys.argv:
+        build_forged()
+        raise SystemExit(0)
     if "--new-only" in sys.argv:
         build("gen-embedded-content-ec.apk", [("CERT", "ec", hashes.SHA256, "embedded")])
         build("gen-dotted-block-names.apk", [("CERT", "ec", hashes.SHA256, True), ("CERT.V2", "ec", hashes.SHA256, True),
